@@ -844,14 +844,15 @@ func c13Client(p *ana.Prog, r *ana.Result) {
 	for _, c := range cmacs {
 		cc := c.(*ssa.Call)
 		// the verify call is after the read (reachable from the read)
-		if ana.Reachable(fn, rd, func(in ssa.Instruction) bool { return in == ssa.Instruction(cc) }, nil, nil) {
+		s := &ana.Search{Fn: fn, NoFacts: true, Target: func(in ssa.Instruction) bool { return in == ssa.Instruction(cc) }}
+		if found, _ := s.Run(rd); found {
 			verify = cc
 		} else {
 			sign = cc
 		}
 	}
 	if verify == nil || sign == nil {
-		r.Violate("C13.mac", fname, "cmac-roles", p.Pos(fn.Pos()), "UNDECIDED: signing/verifying ComputeAuthCMAC calls not recognised")
+		r.Violate("C13.mac", fname, "cmac-roles", p.Pos(fn.Pos()), fmt.Sprintf("UNDECIDED: signing/verifying ComputeAuthCMAC calls not recognised (verify found=%v sign found=%v)", verify != nil, sign != nil))
 		return
 	}
 	rets := ana.ClassifyReturns(fn)
@@ -891,6 +892,10 @@ func c13Client(p *ana.Prog, r *ana.Result) {
 		for _, pr := range [][2]*ana.Gate{{spi, algo}, {algo, spi}} {
 			for e := range pr[1].Accept {
 				for f := range pr[0].Accept {
+					if f == e {
+						both[e] = true // one test of a value that stands for both comparisons
+						continue
+					}
 					t := f.From.Succs[f.Succ]
 					if len(t.Preds) == 1 && (t == e.From || t.Dominates(e.From)) {
 						both[e] = true
